@@ -5,6 +5,25 @@
 
 The .c files are read from ``$VERIF_REPO`` (default /repo) through clang's JSON AST on every call.
 Contracts: /verif/contracts_c/kernels.py.  See DESIGN.md §6 (C11/C12/C17) for the plan this implements.
+
+Modules: frontend.py (clang JSON AST, whitelist of constructs, ``Unsupported``), model.py (symbolic memory),
+spec.py (contract language), vcgen.py (path-wise symbolic execution, obligation kinds), solve.py (z3 discharge,
+counter-models), theory.py (psum and its lemma, proved by induction on every run), selftest.py (deliberate breakage).
+
+Verdict rules
+  * a construct outside the lowered subset, a missing function, a loop count that differs from the sidecar, or a contract
+    that no longer type-checks against the function (e.g. it names a local that was renamed): the function LEAVES REACH,
+    it has no obligations and no verdict.
+  * loop header text differs from the recorded one: with ``QVC_C_STRICT_HEADERS=1`` the function leaves reach at once.
+    By default the recorded invariants are treated as what they logically are — *candidates*: the loop rule is sound
+    for any formula that passes ``inv_init`` and ``inv_pres``, wherever it came from.  If all invariant obligations of
+    the function discharge, the invariants are valid for the current loop and the remaining obligations get ordinary
+    verdicts (this is what lets ``j <= len_state`` be reported as an out-of-bounds read with a counter-model);
+    if any invariant obligation fails, the failure may be due to the stale invariant, so the function leaves reach and
+    its failing obligations are only listed under ``probes``, never as verdicts.
+  * counter bounds of ``for(v = a; v < b; v++)`` loops are derived from the current header, not from the sidecar.
+  * a refuted obligation carries a z3 model.  With quantified hypotheses that model is a model of finitely many
+    instances, i.e. a candidate; replay on a sanitizer build is the arbiter (outside this package).
 """
 import concurrent.futures as cf
 import importlib.util
@@ -124,7 +143,7 @@ def _work_function(fileb, fn):
         cur = merged.get(key)
         if cur is None:
             cur = {"name": names[key], "status": "discharged", "backend": r.get("backend"), "time_s": 0.0, "detail": None,
-                   "model": None, "note": None, "kind": o["kind"], "line": o["line"], "src": o["src"], "what": o["detail"],
+                   "model": None, "note": None, "kind": o["kind"], "line": o["line"], "src": o["src"], "what": " ".join(o["detail"].split()),
                    "paths": 0}
             merged[key] = cur
         cur["paths"] += 1
@@ -132,7 +151,7 @@ def _work_function(fileb, fn):
         if order[r["status"]] > order[cur["status"]]:
             cur["status"] = r["status"]
             cur["backend"] = r.get("backend")
-            cur["detail"] = "%s:%d `%s`: %s -- %s" % (fileb, o["line"], o["src"], o["detail"], r.get("detail") or "")
+            cur["detail"] = " ".join(("%s:%d `%s`: %s -- %s" % (fileb, o["line"], o["src"], o["detail"], r.get("detail") or "")).split())
             cur["model"] = r.get("model")
             cur["note"] = "path: " + o["trail"] if o["trail"] else None
     out["obligations"] = [merged[k] for k in sorted(merged, key=lambda k: (k[1], k[2], k[0], k[3]))]
@@ -162,9 +181,12 @@ def run_all(max_workers=None, only=None):
     # largest first
     weight = {"anneal_puso": 0, "anneal_quso": 1, "single_anneal_puso": 2, "puso_subgraph_value": 3}
     js.sort(key=lambda j: weight.get(j[2], 9))
-    with cf.ProcessPoolExecutor(max_workers=max_workers or min(len(js), os.cpu_count() or 4),
-                                mp_context=mp.get_context("fork")) as ex:
-        results = list(ex.map(_work, js))
+    if max_workers == 0:          # in-process, sequential (for callers that are themselves pool workers)
+        results = [_work(j) for j in js]
+    else:
+        with cf.ProcessPoolExecutor(max_workers=max_workers or min(len(js), os.cpu_count() or 4),
+                                    mp_context=mp.get_context("fork")) as ex:
+            results = list(ex.map(_work, js))
     obligations, functions, left_reach, errors, probes = [], {}, [], [], {}
     files = {}
     for r in results:
@@ -237,7 +259,11 @@ def run_all(max_workers=None, only=None):
     ] + ["external %s: %s" % (n, c["trusted"]) for n, c in K.EXTERNAL.items()]
     return {"property": PROP, "obligations": obligations, "functions": functions, "left_reach": left_reach, "errors": errors,
             "assumptions": assumptions, "trusted_base": trusted, "entry_preconditions": entry, "probes": probes,
-            "files_sha": files, "lemmas": {k: v["statement"] for k, v in theory.LEMMAS.items()},
+            "files_sha": files,
+            "open_by_design": [],     # reads whose initialisation could not be tracked would be listed here; there are none:
+                                      # every read in the kernels is covered by an `init` obligation
+            "header_policy": "strict (any header change -> left reach)" if strict_headers() else
+                             "candidate (header change -> recorded invariants must re-verify as inductive, else left reach)", "lemmas": {k: v["statement"] for k, v in theory.LEMMAS.items()},
             "repo": repo(), "wall_s": round(time.time() - t0, 2),
             "solver_time_s": round(sum(o["time_s"] for o in obligations), 3)}
 
